@@ -13,6 +13,23 @@ RULE = ("behaviours = all two-scene API call sequences of the stated depth over 
 def run(chk):
     tc.model_check(chk, chk.tier == "quick", parts=("main",) if chk.tier == "quick" else ("main", "refine", "extra"), small=chk.tier == "quick")
     tc.standard_plan(chk, "C04", "nt_C04", kinds_quick=("sort", "visual"))
+    # VisualSORT batches with own-area gates: what a scene gets must not depend on the other scenes of its batch.
+    # Disagreements that the one-scene batches show as well are not scene interference.
+    vkw = dict(depth=5, Sim=12, OwnUse=50, OwnCollect=50, Kind="batch", Slots={1, 2}, Confs={900}, Feats={1, 2}, Quals={30, 90}, MaxDets=2)
+    quick = chk.tier == "quick"
+    r1, c1 = tc.generate_visual(chk, "v-own-one-scene", simulate={"num": 10 if quick else 100, "depth": 6}, Scenes={1}, **vkw)
+    base = tc.replay_visual(chk, "v-own-one-scene", r1, c1, "batchvisual", 2, "all", "nt_C04", extra=[])
+    base_sigs = set(base["by_sig"])
+    chk.violations = [v for v in chk.violations if not v[0].startswith("batchvisual:")]   # the baseline itself is not judged here
+    r2_, c2 = tc.generate_visual(chk, "v-own-two-scenes", simulate={"num": 12 if quick else 150, "depth": 6}, Scenes={1, 2}, **vkw)
+    args = tc.vh_args(c2, "batchvisual", 2, "all") + ["--max-obs", str(c2["MaxObs"]), "--min-track-len", str(c2["MinTrackLen"]),
+            "--min-votes", str(c2["MinVotes"]), "--q-use", str(c2["QUse"] / 100.0), "--q-collect", str(c2["QCollect"] / 100.0),
+            "--vis-thr", str(c2["VisThr"] / 10.0), "--own-use", str(c2["OwnUse"] / 100.0), "--own-collect", str(c2["OwnCollect"] / 100.0)]
+    rep = vlib.run_vh(args, [r2_.out])
+    rep["nontrivial"] = rep["counters"].get("nt_C06", 0)
+    chk.add_report("v-own-two-scenes:batchvisual", rep)
+    rep["by_sig"] = {s_: v for s_, v in rep["by_sig"].items() if s_ not in base_sigs}
+    chk.classify("tracker", args, rep)
     # R2: an interleaved multi-scene run against the single-scene runs, related by TLC up to an id bijection
     from checks import r2_common as r2
     traces = []
